@@ -21,6 +21,7 @@ structure Scenario where
   target : TargetKind := .up
   cutAfter : Option Nat := none   -- the link is cut once this many chunks have crossed
   serverUp : Bool := true
+  appEarly : Bool := false        -- the application closes its sending side right after its last write
   preamble : List Bytes := []     -- plain http: the request itself is the first thing forwarded
   resetApp : Bool := false        -- the application resets once its bytes have arrived
   resetTarget : Bool := false     -- the target resets once everything has arrived (it never answers)
@@ -66,7 +67,7 @@ def react (sc : Scenario) (c : Chain) : Chain :=
       { c with answered := true,
                server := { c.server with down := { c.server.down with script := c.server.down.script ++ sc.down.map Src.item ++ (if sc.targetClosesFirst then [Src.eof] else []) } } }
     else c
-  let c := if !c.appClosed && !sc.targetClosesFirst && !sc.resetTarget && sc.cutAfter.isNone && c.answered && size c.client.down.delivered ≥ size sc.down then
+  let c := if !c.appClosed && !sc.appEarly && !sc.targetClosesFirst && !sc.resetTarget && sc.cutAfter.isNone && c.answered && size c.client.down.delivered ≥ size sc.down then
       { c with appClosed := true, client := { c.client with up := { c.client.up with script := c.client.up.script ++ [Src.eof] } } }
     else c
   match sc.cutAfter with
@@ -91,7 +92,7 @@ def rounds (sc : Scenario) : Nat → Chain → Chain
 def start (sc : Scenario) : Chain :=
   let upScript := match sc.cutAfter with
     | some k => (sc.preamble ++ sc.up.take k).map Src.item
-    | none => (sc.preamble ++ sc.up).map Src.item
+    | none => (sc.preamble ++ sc.up).map Src.item ++ (if sc.appEarly then [Src.eof] else [])
   let reachable := sc.serverUp && sc.target == .up
   { client := { up := { script := upScript }, down := { script := [] }, tornDown := !sc.serverUp },
     server := { up := { script := [] }, down := { script := [] }, tornDown := !reachable } }
@@ -128,6 +129,9 @@ def b2 (b : Bool) : String := if b then "1" else "0"
 def Obs.text (sc : Scenario) (o : Obs) : String :=
   if sc.target != .up then
     s!"dialed={b2 o.dialed} down={o.downGot} eof={b2 o.eof} prompt={b2 o.eof}"
+  else if sc.appEarly then
+    let up := if o.upOk then "ok" else s!"diff:{o.upGot}of{o.upWant}"
+    s!"dialed={b2 o.dialed} up={up} eof={b2 o.eof} target-eof={b2 o.targetEof} prompt={b2 (o.eof && o.targetEof)}"
   else if sc.resetApp then
     s!"dialed={b2 o.dialed} up={if o.upOk then "ok" else "diff"} end={b2 o.targetEof} prompt={b2 o.targetEof}"
   else if sc.resetTarget then
